@@ -230,6 +230,11 @@ def run(A, R: Report, thorough: bool):
     from .purity import check_key_stateless
     check_key_stateless(A, R, 'R01.8')
 
+    # ---- R01.9 contexts are isolated from configs and from each other (shared with C09 R09.2)
+    R.rule('R01.9', 'context values reach a config only through deepcopy, and merging contexts never mutates or aliases its inputs', floor=2)
+    from .c09 import check_context_isolation
+    check_context_isolation(A, R, 'R01.9')
+
     # ---- R01.7
     R.rule('R01.7', 'class-level parameter declarations pass deepcopy before they reach the task\'s ParameterRegistry', floor=1)
     cfg = A.cfg(fpp)
